@@ -199,6 +199,37 @@ def print_assumptions(prop, names):
     return closed, report
 
 
+def coqchk(prop):
+    """independent re-check of the compiled property file and everything it depends on (thorough tier);
+    cached by the hash of every .vo in the development"""
+    h = hashlib.sha256()
+    for d, _, fs in sorted(os.walk(COQ)):
+        for fn in sorted(fs):
+            if fn.endswith(".vo"):
+                h.update(fn.encode())
+                h.update(file_hash(os.path.join(d, fn)).encode())
+    key = h.hexdigest()
+    cache = os.path.join(BUILD, "coqchk_%s.json" % prop)
+    if os.path.exists(cache):
+        c = json.load(open(cache))
+        if c.get("key") == key:
+            return c
+    t0 = time.time()
+    try:
+        r = sh(["coqchk", "-silent", "-o", "-Q", COQ, "CKC", "CKC.Props.%s" % prop], cwd=BUILD, timeout=5400)
+        out, rc = r.stdout, r.returncode
+    except subprocess.TimeoutExpired:
+        out, rc = "coqchk timed out", 124
+    axioms = "unknown"
+    m = re.search(r"\* Axioms:\s*(.*?)(?:\n\s*\n|\n\* |\Z)", out, flags=re.S)
+    if m:
+        axioms = " ".join(m.group(1).split())
+    c = {"key": key, "rc": rc, "axioms": axioms, "wall_s": round(time.time() - t0, 1), "tail": out[-600:]}
+    write_json(cache, c)
+    log("coqchk %s: rc=%d axioms=%s (%.0fs)" % (prop, rc, axioms, time.time() - t0))
+    return c
+
+
 def build_model():
     """extract the model and build ocaml/modelrun when needed"""
     rc, out = coq_make(["Extract/Extract.vo"])
@@ -447,6 +478,11 @@ def main(argv):
             discharged, assumptions = print_assumptions(prop, names)
             if discharged != len(names):
                 broken.append(("assumptions", json.dumps(assumptions)[:1500]))
+            elif tier == "thorough" and not os.environ.get("VERIF_NO_COQCHK"):
+                chk_res = coqchk(prop)
+                assumptions["coqchk"] = {k: chk_res[k] for k in ("rc", "axioms", "wall_s")}
+                if chk_res["rc"] != 0 or chk_res["axioms"] not in ("<none>",):
+                    broken.append(("coqchk", chk_res["tail"]))
         bad = gate()
         if bad:
             broken.append(("gate", "; ".join(bad[:20])))
